@@ -905,3 +905,17 @@ VARIANTS += [
     dict(prop="C18", name="shard-handler-accepts-kill", expect="TABLE-dispatch|shard:",
          edits=[dict(file=APF, find="            RouteId::CompleteQuery => {\n                // The processing flow for this API is exactly the same, regardless", replace="            RouteId::KillQuery | RouteId::CompleteQuery => {\n                // The processing flow for this API is exactly the same, regardless")]),
 ]
+
+VLF = "ipa-core/src/protocol/context/validator.rs"
+_c04_new_sig = dict(file=VLF, find="    pub fn new(ctx: MaliciousContext<'a, B>, offset: usize) -> Self {\n        // Each invocation requires 3 calls to PRSS to generate the state.", replace="    pub fn new(ctx: MaliciousContext<'a, B>, offset: usize, r_share: Replicated<F::ExtendedField>) -> Self {\n        // Each invocation requires 3 calls to PRSS to generate the state.")
+_c04_new_body = dict(file=VLF, find="        let r_share: Replicated<F::ExtendedField> = ctx\n            .prss()\n            .generate(Self::r_share_record(offset, TOTAL_CALLS_TO_PRSS));\n        let prss = ctx.prss();", replace="        let prss = ctx.prss();")
+VARIANTS += [
+    dict(prop="C04", name="mac-key-sampled-once-per-validator", expect="FRESH-r|r-per-batch",
+         edits=[_c04_new_sig, _c04_new_body,
+                dict(file=VLF, find="                Box::new(move |batch_index| Malicious::new(ctx.clone(), batch_index)),", replace="                Box::new({\n                    let r_share: Replicated<F::ExtendedField> = ctx.prss().generate(Malicious::<F, B>::r_share_record(0, 3));\n                    move |batch_index| Malicious::new(ctx.clone(), batch_index, r_share.clone())\n                }),")]),
+    dict(prop="C04", name="mac-key-drawn-by-the-batch-constructor", benign=True,
+         edits=[_c04_new_sig, _c04_new_body,
+                dict(file=VLF, find="                Box::new(move |batch_index| Malicious::new(ctx.clone(), batch_index)),", replace="                Box::new(move |batch_index| {\n                    let r_share: Replicated<F::ExtendedField> = ctx.prss().generate(Malicious::<F, B>::r_share_record(batch_index, 3));\n                    Malicious::new(ctx.clone(), batch_index, r_share)\n                }),")]),
+    dict(prop="C04", name="mac-key-index-ignores-offset", expect="FRESH-r|r-per-batch",
+         edits=[dict(file=VLF, find="            .generate(Self::r_share_record(offset, TOTAL_CALLS_TO_PRSS));", replace="            .generate(Self::r_share_record(0, TOTAL_CALLS_TO_PRSS));")]),
+]
